@@ -26,7 +26,7 @@ def load_ndjson(path):
     return evs
 
 
-STEP_KINDS = {"reg", "R", "W", "VR", "VW", "AL", "AS", "XCHG", "RMW", "CAS", "CAS2", "CALL", "SYS", "RELAX", "cont",
+STEP_KINDS = {"reg", "R", "W", "VR", "VW", "AL", "AS", "XCHG", "RMW", "CAS", "CAS2", "CALL", "RET", "SYS", "RELAX", "cont",
               "start"}
 
 
